@@ -687,7 +687,7 @@ class Dir(Gen):
                    [(3, 5), (4, 5), (4, 4), (10, 10)])
         return self.init_ops({"*": "wide", "v3": "pow2", "v5": "pow2", "A1": "pow2", "A5": "pow2"})
 
-    def rule_builders(self):
+    def rule_builders(self, rw=(1, 3), cw=(2, 5), vr=(1, 4), ri=2, dw=(1, 4)):
         """[(rule name, builder)]: for every rule of the table at least one expression whose construction through the
         public functions makes exactly this specialisation fire, with NON-symmetric arguments: non-square operands,
         row window != column window, start offsets > 0 and pairwise different, scalar factors != 1, non-commutative
@@ -755,7 +755,7 @@ class Dir(Gen):
                 continue
             name, opt, key = r["name"], r["opt"], pat(r)
             if opt == "vector_range_optimizer" and key in v5:
-                add(name, lambda key=key: self.mk_range(v5[key](), 1, 4))
+                add(name, lambda key=key: self.mk_range(v5[key](), *vr))
             elif opt == "matrix_transpose_optimizer" and (key in m35 or key in mcat):
                 if key in mcat:
                     add(name, lambda: self.mk_trans(mcat["matrix_concat"]()))
@@ -763,7 +763,7 @@ class Dir(Gen):
                 else:
                     add(name, lambda key=key: self.mk_trans(m35[key]()))
             elif opt == "matrix_row_optimizer" and key in m35:
-                add(name, lambda key=key: self.mk_row(m35[key](), 2))
+                add(name, lambda key=key: self.mk_row(m35[key](), ri))
             elif opt == "matrix_diagonal_optimizer" and key in m44:
                 add(name, lambda key=key: self.mk_diag(m44[key]()))
                 if key + "#c" in m44:
@@ -773,13 +773,18 @@ class Dir(Gen):
                 # the rule for the diagonal matrix has the precondition start1 == start2, end1 == end2
                 # (REMORA_RANGE_CHECK: "unimplemented: non-diagonal subranges of diagonal matrix"; hypotheses hc1, hc2
                 # of its lemma), so its window is a diagonal block with a start offset
-                w = (1, 3, 2, 5) if key != "diagonal_matrix" else (1, 4, 1, 4)
+                w = (rw + cw) if key != "diagonal_matrix" else (dw + dw)
                 add(name, lambda key=key, w=w: self.mk_mrange(m35[key](), *w))
                 if key == "vector_repeater":
-                    add(name, lambda: self.mk_mrange(m35["vector_repeater_column_major"](), 1, 3, 2, 5))
+                    add(name, lambda: self.mk_mrange(m35["vector_repeater_column_major"](), *(rw + cw)))
+                if key != "diagonal_matrix":
+                    # same extents, different starts: a mixed-up window changes the values, not the shape
+                    w2 = (rw[0], rw[1], cw[0], cw[0] + rw[1] - rw[0]) if cw[0] + rw[1] - rw[0] <= 5 and cw[0] != rw[0] else \
+                        (rw[0], rw[1], rw[0] + 1, rw[1] + 1)
+                    add(name, lambda key=key, w2=w2: self.mk_mrange(m35[key](), *w2))
             elif opt == "matrix_rows_optimizer" and key in m35:
-                add(name, lambda key=key: self.mk_rows(m35[key](), 1, 3))
-                add(None, lambda key=key: self.mk_cols(m35[key](), 2, 5))     # = trans(rows(trans(.)))
+                add(name, lambda key=key: self.mk_rows(m35[key](), *rw))
+                add(None, lambda key=key: self.mk_cols(m35[key](), *cw))     # = trans(rows(trans(.)))
             elif opt == "vector_scalar_multiply_optimizer":
                 if key == "default":
                     add(name, lambda: sm(-2, v(1)))
@@ -859,6 +864,17 @@ class Dir(Gen):
         cases, stmts = [], []
         init = self.layout_rules()
         builders = self.rule_builders()
+        if not quick:
+            # thorough tier: a second set of witnesses with windows / indices from the seed
+            dr = self.dr
+            def win(n, other=None):
+                for _ in range(50):
+                    a = dr.range(0, n - 1); b = dr.range(a + 1, n)
+                    if (a, b) != other:
+                        return (a, b)
+                return (0, n)
+            rw = win(3); cw = win(5, rw)
+            builders += self.rule_builders(rw, cw, win(5), dr.below(3), win(5))
         n = 0
         for rule, mk in builders:
             before = dict(calc.fired)
